@@ -102,7 +102,10 @@ def run(pid, tier, seed, replay):
         for (where, lost), c in zip(got, fcases):
             seen = any(l.get("k") == "violation" and l["case"]["id"] == c["id"] and l["sig"].startswith("committed-message-lost") for l in lines)
             if where != "None":
-                ctx.tie_problems.append({"what": "correspondence Repl.Fallback.check_fcluster: history %s (with the truncation fallback) differs from the model at step %s" % (c["id"], where), "first": [{"ops": [{k: v for k, v in s.items() if k in ("op", "r", "n", "v", "e")} for s in c["steps"]]}]})
+                idx = int(where.split()[1])
+                st = [s for s in c["steps"] if s["op"] != "start"]
+                ctx.tie_problems.append({"what": "correspondence Repl.Fallback.check_fcluster: history %s (with a step outside Repl.Cluster's protocol) differs from the model at step %d (%s)" % (c["id"], idx, st[idx]["op"]),
+                                         "first": [{"step": st[idx], "before": st[idx - 1] if idx > 0 else c["steps"][0], "ops": [{k: v for k, v in s.items() if k in ("op", "r", "n", "v", "e")} for s in st[:idx + 1]]}]})
             elif (lost == "true") != seen:
                 ctx.tie_problems.append({"what": "history %s with the truncation fallback: the model says committed-lost=%s, the driver's oracle saw it=%s" % (c["id"], lost, seen)})
     outs = ctx.coq_eval_many([j[0] for j in jobs], jobs=12)
